@@ -11,8 +11,12 @@ HOSTS = ["example.test", "EXAMPLE.Test", "a.b-c.example", "127.0.0.1", "localhos
 PATHS = ["", "/", "/chat", "/a/b%20c", "/p;x=1", "/deep/er/path/", "/%E2%82%AC"]
 QUERIES = ["", "x=1", "a=b&c=d", "q=%E2%82%AC", "flag", "a=1&a=2"]
 ACCEPT_KINDS = ["correct", "other_key", "no_guid", "swapcase", "lower", "upper", "one_case_flip", "one_char",
-                "trunc:27", "trunc:20", "trunc:1", "nopad", "extra", "inner_space", "hex", "key_echo", "empty"]
-UPGRADES = ["websocket", "WebSocket", "WEBSOCKET", "wEbSoCkEt", "h2c", "websocket2", "web socket", "websockets", ""]
+                "trunc:27", "trunc:20", "trunc:1", "nopad", "extra", "inner_space", "hex", "key_echo", "empty",
+                "braced", "format_field"]
+# wrong Upgrade values include characters that are special to str.format / % formatting / logging
+UPGRADES = ["websocket", "WebSocket", "WEBSOCKET", "wEbSoCkEt", "h2c", "websocket2", "web socket", "websockets", "",
+            "{websocket}", "websocket{}", "{0}", "%s%d", "h2c; profile={x}", "web\\socket"]
+REASONS = ["Switching Protocols", "", "OK", "Web Socket Protocol Handshake", "Forbidden", "x y z", "{}", "{0} %s {x!r}"]
 STATUSES = [101, 101, 101, 101, 200, 100, 204, 301, 400, 403, 404, 426, 500, 503, 102, 1010, 10]
 FRAME_AFTER = wire.build_frame(wire.TEXT, b"must-not-be-delivered-unless-ready")
 
@@ -80,7 +84,7 @@ class C10(Prop):
             "headers, agent, compress, a Hypothesis-drawn 16-byte key served through os.urandom, two connects per object; the "
             "request bytes are parsed by an independent strict HTTP parser and compared field by field. Replies are generated "
             "from an RFC 7230-valid grammar: status, reason, header order/casing/OWS/obs-fold, unrelated and duplicate headers, "
-            "Upgrade variants, 17 Sec-WebSocket-Accept classes (correct, digest of another key, without GUID, case variants, "
+            "Upgrade variants (case variants, other tokens, values with characters special to string formatting), 19 Sec-WebSocket-Accept classes (correct, digest of another key, without GUID, case variants, "
             "truncations, padding, hex, ...), header blocks around 16384 bytes with and without terminator, any read "
             "segmentation, a frame following in the same stream. Ready iff 101 + Upgrade websocket + exact digest; otherwise "
             "Rejected / ProtocolError(>16 KiB) with no Ready, no message events, socket released. Non-trivial = reply differs "
@@ -101,7 +105,7 @@ class C10(Prop):
         hval = st.from_regex(r"[!-~]([ -~]{0,18}[!-~])?", fullmatch=True)
         reply = st.fixed_dictionaries({
             "status": gen.weighted([(1, st.just(101)), (1, st.sampled_from(STATUSES))]),
-            "reason": st.sampled_from(["Switching Protocols", "", "OK", "Web Socket Protocol Handshake", "Forbidden", "x y z"]),
+            "reason": st.sampled_from(REASONS),
             "upgrade": gen.weighted([(1, st.none()), (7, st.sampled_from(UPGRADES[:4] * 3 + UPGRADES))]),
             "accept": gen.weighted([(8, st.just("correct")), (8, st.sampled_from(ACCEPT_KINDS)), (1, st.just("missing"))]),
             "protocol": st.one_of(st.none(), token),
@@ -137,10 +141,12 @@ class C10(Prop):
             for a in ACCEPT_KINDS + ["missing"]:
                 for up in UPGRADES + [None]:
                     for status in (101, 200, 403):
-                        yield {"url": {"scheme": "ws", "host": "example.test", "port": None, "path": "/", "query": ""},
-                               "protocols": [], "headers": [], "agent": None, "compress": False,
-                               "key": "000102030405060708090a0b0c0d0e0f", "key2": None, "seg": "whole",
-                               "reply": {"status": status, "upgrade": up, "accept": a, "terminate": True}}
+                        for reason in ("Switching Protocols", "{0} %s {x!r}"):
+                            yield {"url": {"scheme": "ws", "host": "example.test", "port": None, "path": "/", "query": ""},
+                                   "protocols": [], "headers": [], "agent": None, "compress": False,
+                                   "key": "000102030405060708090a0b0c0d0e0f", "key2": None, "seg": "whole",
+                                   "reply": {"status": status, "upgrade": up, "accept": a, "terminate": True,
+                                             "reason": reason}}
         def spellings():
             # every spelling dimension applied to each header of an otherwise canonical reply, once with the
             # correct digest (must be Ready) and once with the digest of another key (must be Rejected)
